@@ -468,7 +468,7 @@ func c09Hist(c *C09HistCase, r *core.Rec) {
 }
 
 func c09Key(s *stats.Sample) string {
-	return fmt.Sprint(s.Xs, s.Weights, s.Sorted)
+	return core.DeepKey(s) // every field, exported or not
 }
 
 func c09BFS(xs, ws []float64, depth int, r *core.Rec) int64 {
